@@ -133,7 +133,7 @@ pub fn exercise(text: &str) -> Option<(String, String)> {
         lib.insert(k.clone(), v.clone());
     }
     let mut server_opt = None;
-    if let Some(p) = run("server start", &mut || server_opt = Some(act::server(&lib, "", false))) {
+    if let Some(p) = run("server start + every note re-sent (didChange / didSave)", &mut || server_opt = Some(act::with_via(act::Via::Touch, || act::server(&lib, "", false)))) {
         return Some(p);
     }
     let server = server_opt?;
@@ -167,6 +167,26 @@ pub fn exercise(text: &str) -> Option<(String, String)> {
         let _ = server.handle_document_formatting(DocumentFormattingParams { text_document: td.clone(), options: FormattingOptions::default(), work_done_progress_params: Default::default() });
     }) {
         return Some(p);
+    }
+    // the notes this one may link to: who refers to them is asked after this note has been re-read (a stale entry of
+    // the reference index must not crash the answer)
+    for other in ["other", "bare"] {
+        let od = TextDocumentIdentifier { uri: act::uri(other) };
+        if let Some(p) = run(&format!("inlay hints of {}", other), &mut || {
+            let _ = server.handle_inlay_hints(InlayHintParams { text_document: od.clone(), range: Range::default(), work_done_progress_params: Default::default() });
+        }) {
+            return Some(p);
+        }
+        if let Some(p) = run(&format!("references to {}", other), &mut || {
+            let _ = server.handle_references(ReferenceParams {
+                text_document_position: TextDocumentPositionParams { text_document: od.clone(), position: Position::new(0, 0) },
+                work_done_progress_params: Default::default(),
+                partial_result_params: Default::default(),
+                context: ReferenceContext { include_declaration: false },
+            });
+        }) {
+            return Some(p);
+        }
     }
     let nlines = text.lines().count() as u32 + 2;
     for line in 0..nlines.min(60) {
@@ -417,7 +437,8 @@ pub fn run(ctx: &Ctx, model: &mut Model, rep: &mut Report) {
             }
         }
     }
-    let keys: Vec<String> = hist::KEY_POOL.iter().map(|s| s.to_string()).collect();
+    // link targets: the usual pool (notes that do not exist here) and the two other notes of `exercise`'s library
+    let keys: Vec<String> = hist::KEY_POOL.iter().map(|s| s.to_string()).chain(["other", "bare", "other", "bare"].iter().map(|s| s.to_string())).collect();
     let n = if ctx.thorough { 6000 } else { 400 };
     for i in 0..n {
         let mut r = Rng::for_case(ctx.seed ^ 0xC03, i as u64);
